@@ -320,6 +320,7 @@ func (fr *Frame) applyContract(ct *Contract, key string, sig *types.Signature, f
 			post.layer = nil
 			u.epochAlloc[post.epoch] = a
 			fr.preserveLocals(pre, post)
+			fr.preservePrivateArrays(pre, post, nil)
 			// ghost variables change only if listed explicitly as ghost(NAME) (checked for verified callees by the
 			// ghost frame obligation)
 		} else {
